@@ -6,6 +6,8 @@
 package vsess
 
 import (
+	"strings"
+
 	"github.com/paulsonkoly/calc/builtin"
 	"github.com/paulsonkoly/calc/internal/vrt"
 	"github.com/paulsonkoly/calc/memory"
@@ -71,6 +73,9 @@ func Class(err error) int {
 		return EArity
 	case vm.ErrConversion:
 		return EConv
+	}
+	if strings.HasPrefix(err.Error(), "read error") {
+		return ERead
 	}
 	return EOther
 }
